@@ -346,10 +346,15 @@ def check_main(pid, cli_tier=None):
             problems.append('main phase failed: %s' % traceback.format_exc()[-1500:])
         dumps.append(json.loads(json.dumps(rec.dump())))
     m = merge(dumps)
+    post = {}
+    if hasattr(mod, 'post_merge'):
+        post = mod.post_merge(m, tier) or {}
     evaluations = m['counters'].get('evaluations', 0)
     known, unknown = classify(pid, m['deviations'])
     # reach
     missing = [c for c in getattr(mod, 'REQUIRED', ['evaluations']) if m['counters'].get(c, 0) <= 0]
+    if m['counters'].get('monitor_errors', 0):
+        problems.append('%d executions raised inside a monitor (see monitor_error_samples in the evidence)' % m['counters']['monitor_errors'])
     violations = len(unknown)
     total_unknown = violations
     coverage = {
@@ -368,8 +373,7 @@ def check_main(pid, cli_tier=None):
         coverage['exhaustive_axis'] = mod.EXHAUSTIVE[tier]
     for k, v in m['extra'].items():
         coverage[k] = v
-    if hasattr(mod, 'post_merge'):
-        coverage.update(mod.post_merge(m, tier) or {})
+    coverage.update(post)
     if problems:
         coverage['problems'] = problems
     if missing:
